@@ -90,9 +90,16 @@ func C15(c *Ctx) {
 			mask := 1 + (k/len(pointOps))%((1<<op.npts)-1) // non-empty subset of positions set to the zero value
 			pts := make([]*edwards25519.Point, op.npts)
 			var desc []string
+			// several zero-value positions are the SAME zero-value object half of the time
+			// (z.Add(z, z)-style misuse), distinct objects otherwise
+			sharedZero := new(edwards25519.Point)
+			share := r.Bool()
 			for j := range pts {
 				if mask&(1<<j) != 0 {
 					pts[j] = new(edwards25519.Point)
+					if share {
+						pts[j] = sharedZero
+					}
 					desc = append(desc, "zero-value")
 				} else {
 					pc := r.Point()
@@ -109,11 +116,16 @@ func C15(c *Ctx) {
 			}
 			// receiver state for the non-input receiver
 			recv := new(edwards25519.Point)
-			rs := r.Intn(3)
+			rs := r.Intn(4)
 			if rs == 1 {
 				recv = edwards25519.NewIdentityPoint()
 			} else if rs == 2 {
 				recv = edwards25519.NewGeneratorPoint()
+			} else if rs == 3 && share {
+				recv = sharedZero // the receiver is the zero-value input itself
+			}
+			if share {
+				desc = append(desc, "(zero-value positions share one object)")
 			}
 			pv := catch(func() { op.run(recv, pts, scs) })
 			c.Eval(true, []byte(op.name), []byte{byte(mask), byte(rs)}, []byte(fmt.Sprint(desc)))
